@@ -35,6 +35,21 @@ func (p *zzPlug) Execute(req *plugin.Request) *plugin.Response {
 	return p.res
 }
 
+type zzSDK struct {
+	params  []string
+	res     *plugin.Response
+	gotPP   []string
+	invoked int
+}
+
+func (s *zzSDK) GetName() string               { return "sdk" }
+func (s *zzSDK) GetPluginParameters() []string { return s.params }
+func (s *zzSDK) Invoke(req *plugin.Request) *plugin.Response {
+	s.invoked++
+	s.gotPP = append([]string(nil), req.PluginParameters...)
+	return s.res
+}
+
 type zzBackend struct {
 	res   *plugin.Response
 	plugs map[string]*zzPlug
@@ -175,7 +190,18 @@ func H_C11_generate(nplug int) {
 		}
 		be.plugs[who] = p
 		plugs = append(plugs, p)
-		out.UsedPlugins = append(out.UsedPlugins, &plugin.Desc{Name: who, Options: []plugin.Option{{Name: who + "k", Desc: zzrt.String(who+"v", 1)}, {Name: "z"}, {Name: "a", Desc: "1"}}})
+		// 0..3 options: a plugin without options must see none (not the previous plugin's)
+		all := []plugin.Option{{Name: who + "k", Desc: zzrt.String(who+"v", 1)}, {Name: "z"}, {Name: "a", Desc: "1"}}
+		out.UsedPlugins = append(out.UsedPlugins, &plugin.Desc{Name: who, Options: all[:zzrt.Choose(who+".nopt", 4)]})
+	}
+	// optionally an in-process (SDK) plugin with parameters of its own runs before the external ones
+	var sdk *zzSDK
+	if nplug > 0 && zzrt.Bool("sdk") {
+		sdk = &zzSDK{params: []string{"sdkp=1"}}
+		sdk.res = plugin.NewResponse()
+		sdk.res.Contents = []*plugin.Generated{{Name: zzStr("sdk.go"), Content: zzFileText("<sdk>", false)}}
+		items = append(items, zzItem{token: "<sdk>"})
+		out.SDKPlugins = []plugin.SDKPlugin{sdk}
 	}
 	ast := &parser.Thrift{Filename: "main.thrift"}
 	req := &plugin.Request{Version: "v", Language: "go", OutputPath: "out", AST: ast}
@@ -195,6 +221,9 @@ func H_C11_generate(nplug int) {
 		zzrt.Assert(zzSameStrings(p.gotPP, plugin.Pack(out.UsedPlugins[i].Options)), "plugin "+p.name+" sees its own options in order")
 		zzrt.Assert(zzSameStrings(p.gotGP, plugin.Pack(out.Options)), "plugin "+p.name+" sees the generator options")
 		zzrt.Assert(p.gotAST == ast, "plugin "+p.name+" sees the compiler's AST")
+	}
+	if sdk != nil {
+		zzrt.Assert(sdk.invoked == 1 && zzSameStrings(sdk.gotPP, sdk.params), "the SDK plugin sees its own parameters")
 	}
 	// warnings are shown, in order
 	wantW := []string{"bw"}
